@@ -214,6 +214,9 @@ m("C02-k", "C02", "libwallet/src/internal/tx.rs", "\t\tif t.tx_type == TxLogEntr
 
 m("C13-f", "C13", "api/src/types.rs", "\t\tlet nonce: [u8; 12] = thread_rng().gen();", "\t\tlet nonce: [u8; 12] = [7u8; 12];", "C13.R2")
 
+m("C12-i", "C12", "impls/src/lifecycle/seed.rs", "\t\tlet salt: [u8; 8] = thread_rng().gen();\n\t\tlet nonce: [u8; 12] = thread_rng().gen();", "\t\tlet salt: [u8; 8] = [1u8; 8];\n\t\tlet nonce: [u8; 12] = thread_rng().gen();", "C12.R3")
+m("C12-j", "C12", "impls/src/lifecycle/seed.rs", "\t\tlet salt: [u8; 8] = thread_rng().gen();\n\t\tlet nonce: [u8; 12] = thread_rng().gen();", "\t\tlet salt: [u8; 8] = thread_rng().gen();\n\t\tlet nonce: [u8; 12] = [0u8; 12];", "C12.R3")
+
 
 def for_property(prop):
     return [x for x in M if x["property"] == prop]
